@@ -666,7 +666,11 @@ func (e *AnimEncoder) addOptimizedFrame(img image.Image, duration time.Duration)
 
 	// Ensure canvas dimensions match. If the image is smaller than the canvas,
 	// place it at (0,0) on a full-canvas NRGBA.
-	if currCanvas.Bounds().Dx() != e.width || currCanvas.Bounds().Dy() != e.height {
+	// The same applies to an *image.NRGBA that is a sub-image view (non-zero
+	// origin or a parent's stride): the code below indexes Pix assuming
+	// origin (0,0) and a stride of 4*width.
+	if currCanvas.Bounds().Dx() != e.width || currCanvas.Bounds().Dy() != e.height ||
+		currCanvas.Rect.Min != (image.Point{}) || currCanvas.Stride != 4*e.width {
 		full := image.NewNRGBA(image.Rect(0, 0, e.width, e.height))
 		copyImageRect(full, currCanvas, 0, 0)
 		currCanvas = full
